@@ -27,7 +27,14 @@ pub fn remove_dot_segments(path: &[u8]) -> Vec<u8> {
 		pathlist::rfc_5_2_4(path)
 	} else {
 		let m = pathlist::split(path);
-		pathlist::plain(false, &pathlist::remove_dot_segments_list(false, &m.segs))
+		let out = pathlist::remove_dot_segments_list(false, &m.segs);
+		if out.len() > 1 && out[0].is_empty() {
+			// a relative sequence starting with an empty segment has no faithful plain text
+			// (it would read as absolute): keep it relative with a '.' shield
+			pathlist::shielded(false, &out)
+		} else {
+			pathlist::plain(false, &out)
+		}
 	}
 }
 
